@@ -4154,7 +4154,11 @@ static void DecodeBcc(Word CondCode) {
             }
         }
 
-        if ((CodeLen > 0) && IsBSR) {
+        /* only a BSR that aims at its own end (displacement 0 in the 8 bit,
+           2 in the 16 bit form) marks the label behind it: the label behind
+           some other BSR must not keep this one at 16 bits */
+
+        if ((CodeLen > 0) && IsBSR && ((HVal == 0) || (HVal == 2))) {
             AfterBSRAddr = EProgCounter() + CodeLen;
         }
     }
